@@ -114,6 +114,11 @@ def make_cases(tier, seed, groups):
         for fen in tact:
             for d in (1, 2):
                 cases.append({"group": "cutx-probe", "fen": fen, "moves": [], "specs": ["d%d" % d], "depth": d, "nomodel": True})
+    if "cut" in groups:
+        # engine-only: DEEP iterations interrupted by node budgets on pawn endings (iteration 6-8 cut at ~150 points): judged by the
+        # prefix property and by "cache content = observed writes" (seeded change r9C13 fires only in iterations >= 6)
+        for fen in ("8/8/p7/P7/8/4K3/8/7k w - - 0 1", "7k/8/8/8/8/P7/8/7K w - - 0 1", "8/8/4k3/8/8/4P3/8/4K3 w - - 0 1", "k7/7p/8/8/8/8/8/K7 b - - 0 1"):
+            cases.append({"group": "cutd-probe", "fen": fen, "moves": [], "specs": ["d8"], "depth": 8, "nomodel": True})
     if "timer" in groups:
         # C09: the time-management budget for both colours
         for i in range(24 if tier == "quick" else 400):
@@ -317,6 +322,13 @@ def run(tier, seed, groups=("value", "budget", "seq", "cut", "timer", "material"
                 for n in budgets:
                     extra.append({"group": "budget", "fen": c["fen"], "moves": c["moves"],
                                   "specs": ["d%dn%d" % (c["depth"], n)], "full": full})
+        for c, e in zip(cases, eng):
+            if c["group"] == "cutd-probe" and e["results"] and not e["results"][0].get("panic"):
+                full = e["results"][0]["nodes"]
+                npts = 160 if tier == "quick" else 1200
+                step = max(1, full // npts)
+                for n in range(200 + (seed % step), full + 1, step):
+                    extra.append({"group": "cutx", "fen": c["fen"], "moves": [], "specs": ["d8n%d" % n], "depth": 8, "nomodel": True})
         for c, e in zip(cases, eng):
             if c["group"] == "cutx-probe" and e["results"] and not e["results"][0].get("panic"):
                 full = e["results"][0]["nodes"]
